@@ -27,6 +27,59 @@ limitations under the License.
 
 namespace optree {
 
+namespace {
+
+// Guards for the registry mutex that do not block the other Python threads while waiting.
+//
+// While the registry is being modified, the writer may run Python code with the mutex held (class
+// attribute lookups during the namedtuple / PyStructSequence classification, the `warnings`
+// machinery). That code needs the GIL to make progress. A thread that waits for the mutex while
+// holding the GIL would therefore deadlock the whole process, so release the GIL while waiting.
+#ifdef Py_GIL_DISABLED
+
+using registry_read_lock_guard = scoped_read_lock_guard;
+using registry_write_lock_guard = scoped_write_lock_guard;
+
+#else
+
+template <bool Shared>
+class registry_lock_guard {
+public:
+    registry_lock_guard() = delete;
+    explicit registry_lock_guard(read_write_mutex& mutex) : m_mutex{mutex} {
+        if (!try_lock()) [[unlikely]] {
+            const py::gil_scoped_release gil_release{};
+            lock();
+        }
+    }
+    ~registry_lock_guard() { unlock(); }
+
+    registry_lock_guard(const registry_lock_guard&) = delete;
+    registry_lock_guard& operator=(const registry_lock_guard&) = delete;
+    registry_lock_guard(registry_lock_guard&&) = delete;
+    registry_lock_guard& operator=(registry_lock_guard&&) = delete;
+
+private:
+#ifdef HAVE_READ_WRITE_LOCK
+    bool try_lock() { return Shared ? m_mutex.try_lock_shared() : m_mutex.try_lock(); }
+    void lock() { Shared ? m_mutex.lock_shared() : m_mutex.lock(); }
+    void unlock() { Shared ? m_mutex.unlock_shared() : m_mutex.unlock(); }
+#else
+    bool try_lock() { return m_mutex.try_lock(); }
+    void lock() { m_mutex.lock(); }
+    void unlock() { m_mutex.unlock(); }
+#endif
+
+    read_write_mutex& m_mutex;
+};
+
+using registry_read_lock_guard = registry_lock_guard</*Shared=*/true>;
+using registry_write_lock_guard = registry_lock_guard</*Shared=*/false>;
+
+#endif
+
+}  // namespace
+
 template <bool NoneIsLeaf>
 /*static*/ PyTreeTypeRegistry* PyTreeTypeRegistry::Singleton() {
     PYBIND11_CONSTINIT static py::gil_safe_call_once_and_store<PyTreeTypeRegistry> storage;
@@ -145,7 +198,7 @@ template <bool NoneIsLeaf>
                                              const py::function& unflatten_func,
                                              const py::object& path_entry_type,
                                              const std::string& registry_namespace) {
-    const scoped_write_lock_guard lock{sm_mutex};
+    const registry_write_lock_guard lock{sm_mutex};
 
     RegisterImpl<NONE_IS_NODE>(cls,
                                flatten_func,
@@ -224,7 +277,7 @@ template <bool NoneIsLeaf>
 
 /*static*/ void PyTreeTypeRegistry::Unregister(const py::object& cls,
                                                const std::string& registry_namespace) {
-    const scoped_write_lock_guard lock{sm_mutex};
+    const registry_write_lock_guard lock{sm_mutex};
 
     const auto registration1 = UnregisterImpl<NONE_IS_NODE>(cls, registry_namespace);
     const auto registration2 = UnregisterImpl<NONE_IS_LEAF>(cls, registry_namespace);
@@ -242,7 +295,7 @@ template <bool NoneIsLeaf>
 /*static*/ PyTreeTypeRegistry::RegistrationPtr PyTreeTypeRegistry::Lookup(
     const py::object& cls,
     const std::string& registry_namespace) {
-    const scoped_read_lock_guard lock{sm_mutex};
+    const registry_read_lock_guard lock{sm_mutex};
 
     PyTreeTypeRegistry* const registry = Singleton<NoneIsLeaf>();
     if (!registry_namespace.empty()) [[unlikely]] {
@@ -299,7 +352,7 @@ template PyTreeKind PyTreeTypeRegistry::GetKind<NONE_IS_LEAF>(
 
 // NOLINTNEXTLINE[readability-function-cognitive-complexity]
 /*static*/ void PyTreeTypeRegistry::Clear() {
-    const scoped_write_lock_guard lock{sm_mutex};
+    const registry_write_lock_guard lock{sm_mutex};
 
     PyTreeTypeRegistry* const registry1 = PyTreeTypeRegistry::Singleton<NONE_IS_NODE>();
     PyTreeTypeRegistry* const registry2 = PyTreeTypeRegistry::Singleton<NONE_IS_LEAF>();
